@@ -10,17 +10,37 @@ package hessian
 func H_C12_no_shared_writes() {
 	probe := &ZOuter{A: vInt32("a"), In: ZInner{N: 7, S: "in"}, P: &ZInner{N: 3, S: "p"}, Z: 11}
 	lists := &ZLists{Ss: []string{"a", ""}, Is: []int32{vInt32("i")}, Ps: []*ZInner{probe.P, probe.P}}
-	tm, nm := vExtractAll(probe, lists)
-	ref, err := ToBytes(probe, nm)
+	named := &ZTree{V: 1, Kids: []*ZTree{{V: 2, Named: ZNamed{V: 4}}}, Named: ZNamed{V: 3}} // holds a custom-named class
+	tm, nm := vExtractAll(probe, lists, named)
+	// the maps are shared from the moment they are extracted: the very first encode must not write to them
+	// either, so the reference rendering below is computed with private copies
+	vMapOrderFixed(true)
+	nmCopy := map[string]string{}
+	for k, x := range nm {
+		nmCopy[k] = x
+	}
+	vMapOrderFixed(false)
+	ref, err := ToBytes(probe, nmCopy)
+	vAssume(err == nil)
+	refNamed, err := ToBytes(named, nmCopy)
 	vAssume(err == nil)
 	// from here on everything another goroutine could reach is read-only
 	vFreezeGlobals("shared-global")
 	vFreeze(nm, "shared-name-map")
 	vFreeze(tm, "shared-type-map")
+	vFreeze(named, "shared-input-value")
+	vFreeze(refNamed, "shared-input-bytes")
 	vFreeze(probe, "shared-input-value")
 	vFreeze(lists, "shared-input-value")
 	vFreeze(ref, "shared-input-bytes")
-	switch vChoice("call", 8) {
+	switch vChoice("call", 10) {
+	case 8:
+		b, err := NewEncoder(nil, nm).Encode(named)
+		vAssert("encode-custom-named", err == nil && eqBytes(b, refNamed))
+	case 9:
+		o, err := NewSerializer(tm, nm).ToObject(refNamed)
+		g, ok := o.(*ZTree)
+		vAssert("decode-custom-named", err == nil && ok && g.Named.V == 3 && len(g.Kids) == 1 && g.Kids[0].Named.V == 4)
 	case 0:
 		b, err := NewEncoder(nil, nm).Encode(probe)
 		vAssert("encode", err == nil && eqBytes(b, ref))
